@@ -1,7 +1,7 @@
 """Vector (reduction-carrying) kernels: softmax / log_softmax / nll / cross-entropy / batch-norm.
 
 Not a registered property check.  `run_part(ctx, props_file)` is called by checks/c02.py, c09.py, c14.py with
-props_file in {"Props/C02_vector.v", "Props/C09_vector.v", "Props/C14_vector.v"} and performs
+props_file in {"Props/C02_vector.v", "Props/C09_vector.v", "Props/C14_vector.v", "Props/C13_vector.v"} and performs
 
   (a) translator   lib/py2coq/gen_veckernels.py : cpu_ops.py + nn/functional.py -> coq/Gen/GenVecKernels.v   (fail-closed)
   (b) self-check   IR evaluated with plain Python on every fibre of random N-D arrays vs the real kernels; the wrapper
@@ -17,13 +17,14 @@ props_file in {"Props/C02_vector.v", "Props/C09_vector.v", "Props/C14_vector.v"}
 import json, os, time
 from lib import common
 
-PROPS = ("Props/C02_vector.v", "Props/C09_vector.v", "Props/C14_vector.v")
+PROPS = ("Props/C02_vector.v", "Props/C09_vector.v", "Props/C14_vector.v", "Props/C13_vector.v")
 EXTRA_TARGETS = {   # only what the part needs: e.g. a broken batch-norm or nll-backward proof must not take the C09 part down
     "Props/C02_vector.v": ["Analysis/Vector.vo", "Gen/GenVecKernels.vo", "Proofs/VecKernelProofs.vo", "Proofs/VecKernelProofsLossFwd.vo",
                            "Proofs/VecKernelProofsLossBwd.vo", "Proofs/VecKernelProofsBN.vo"],
     "Props/C09_vector.v": ["Analysis/Vector.vo", "Gen/GenVecKernels.vo", "Proofs/VecKernelProofs.vo", "Proofs/VecKernelProofsLossFwd.vo"],
     "Props/C14_vector.v": ["Analysis/Vector.vo", "Gen/GenVecKernels.vo", "Proofs/VecKernelProofs.vo", "Proofs/VecKernelProofsLossFwd.vo",
                            "Proofs/VecKernelProofsLossBwd.vo"],
+    "Props/C13_vector.v": ["Analysis/Vector.vo", "Gen/GenVecKernels.vo", "Proofs/VecKernelProofsBNStats.vo"],
 }
 
 _done = {}     # per process: translator + self-check are run once even if several parts are requested
@@ -176,6 +177,55 @@ def _axioms_of_log(path):
     return res
 
 
+def _c13_judge(case):
+    """running statistics after one forward call vs PyTorch's buffers; None or (expected, observed, note)"""
+    from lib import impl
+    import numpy as np, torch
+    sg, NF = impl.synapgrad, impl.NF
+    x = np.array(case["x"], dtype=np.float64)
+    rm0, rv0 = np.array(case["running_mean"], dtype=np.float64), np.array(case["running_var"], dtype=np.float64)
+    w = None if case["weight"] is None else np.array(case["weight"], dtype=np.float64)
+    b = None if case["bias"] is None else np.array(case["bias"], dtype=np.float64)
+    T = lambda a: None if a is None else sg.Tensor(a.copy())
+    rm, rv = T(rm0), T(rv0)
+    try:
+        out = NF.batch_norm(T(x), T(w), T(b), rm, rv, case["training"], case["momentum"], case["eps"])
+    except Exception as ex:
+        return "forward accepted", repr(ex), "forward raised"
+    tt = lambda a: None if a is None else torch.tensor(a.copy())
+    trm, trv = tt(rm0), tt(rv0)
+    tout = torch.nn.functional.batch_norm(tt(x), trm, trv, tt(w), tt(b), case["training"], case["momentum"], case["eps"])
+    obs = {"running_mean": np.array(rm.data).tolist(), "running_var": np.array(rv.data).tolist()}
+    exp = {"running_mean": trm.numpy().tolist(), "running_var": trv.numpy().tolist()}
+    ok = all(np.allclose(np.array(obs[k]), np.array(exp[k]), rtol=1e-9, atol=1e-11) for k in obs) and \
+        np.allclose(np.array(out.data), tout.numpy(), rtol=1e-8, atol=1e-10)
+    return None if ok else (exp, obs, "running statistics / output after one forward call differ from PyTorch")
+
+
+def oracle_c13_stats(ctx):
+    import numpy as np
+    rs = np.random.RandomState(ctx.rng.randrange(2 ** 31))
+    n_cases = witnesses = 0
+    for k in range(60 if ctx.quick else 600):
+        rank = int(rs.randint(2, 5))
+        shape = (int(rs.randint(2, 5)), int(rs.randint(1, 4))) + tuple(int(rs.randint(1, 4)) for _ in range(rank - 2))
+        C = shape[1]
+        aff = rs.randint(0, 2)
+        case = {"oracle": "c13", "x": (rs.standard_normal(shape) * 2 + rs.uniform(-3, 3)).tolist(),
+                "running_mean": rs.uniform(-2, 2, C).tolist(), "running_var": rs.uniform(0.3, 3, C).tolist(),
+                "weight": rs.uniform(-2, 2, C).tolist() if aff else None, "bias": rs.uniform(-2, 2, C).tolist() if aff else None,
+                "training": bool(rs.randint(0, 2)), "momentum": float(rs.choice([0.1, 0.3, 0.9])), "eps": float(rs.choice([1e-5, 1e-3, 0.1]))}
+        n_cases += 1
+        v = _c13_judge(case)
+        if v:
+            witnesses += 1
+            if witnesses <= 3:
+                ctx.witness("nn.functional.batch_norm/running-statistics", "training=%s rank=%d" % (case["training"], rank), case, v[0], v[1], v[2])
+    res = {"cases": n_cases, "witnesses": witnesses}
+    ctx.extra["oracle_c13_vector"] = res
+    return res
+
+
 def run_part(ctx, props_file):
     """(a) translator, (b) self-check, (c) build of props_file, (d) oracle for that part.  Returns a small summary dict."""
     assert props_file in PROPS, props_file
@@ -189,6 +239,8 @@ def run_part(ctx, props_file):
         res = kv_oracle.oracle_c02(ctx)
     elif props_file.endswith("C09_vector.v"):
         res = kv_oracle.oracle_c09(ctx)
+    elif props_file.endswith("C13_vector.v"):
+        res = oracle_c13_stats(ctx)
     else:
         res = oracle_c14(ctx)
     ctx.log("veckernels oracle for %s: %s (%.1fs)" % (props_file, {k: v for k, v in res.items() if k in ("cases", "witnesses", "rejected")}, time.time() - t0))
@@ -205,6 +257,10 @@ def replay_part(ctx, data):
     if data.get("kind") != "failing-input":
         print(json.dumps(data.get("broken"), indent=1)); return 1
     inp = data.get("input", {})
+    if inp.get("oracle") == "c13":
+        v = _c13_judge(inp)
+        print("still fails:" if v else "passes now:", json.dumps(v, default=str)[:600])
+        return 1 if v else 0
     if inp.get("oracle") == "c14":
         v = _c14_ce(inp["x"], inp["y"], inp["reduction"], inp["g"]) if inp.get("identity") == "ce" else _c14_ls(inp["x"], inp["dim"], inp["g"])
         print("still fails:" if v else "passes now:", json.dumps(v, default=str)[:600])
